@@ -107,6 +107,16 @@ def run(ctx):
             nm = q['name'] + exts[i % len(exts)]
             files[i] = (nm, W.write_fasta(os.path.join(qdir, nm), q['contigs'], gz=nm.endswith('.gz'), members=[1, 3, 2][i % 3], width=[60, 7, 1000][i % 3], eol=['\n', '\r\n'][i % 2]))
         # different genomes whose labels collide (same base name in two directories; x.fa vs x.fasta)
+        # stacked extensions (only one FASTA extension is stripped: labels x.fa / y.fna), and a genome reached through a symbolic link
+        # with another base name (the label comes from the name given on the command line)
+        for nm, qi in (('x.fa.fasta', 1), ('y.fna.fasta.gz', 5)):
+            files[len(files)] = (nm, W.write_fasta(os.path.join(qdir, nm), pool[qi]['contigs'], gz=nm.endswith('.gz')))
+            pool.append(dict(name=nm, contigs=pool[qi]['contigs']))
+        target = W.write_fasta(os.path.join(tmp, 'store', 'blob_0001.fasta'), pool[6 % len(pool)]['contigs'])
+        os.symlink(target, os.path.join(qdir, 'linked_sample.fna'))
+        files[len(files)] = ('linked_sample.fna', os.path.join(qdir, 'linked_sample.fna'))
+        pool.append(dict(name='linked_sample.fna', contigs=pool[6 % len(pool)]['contigs']))
+        n_special = 3
         for nm, qi in (('run1/sample.fasta', 0), ('run2/sample.fasta', 4), ('x.fa', 2), ('x.fasta', 3)):
             files[len(files)] = (nm, W.write_fasta(os.path.join(qdir, nm), pool[qi]['contigs']))
             pool.append(dict(name=nm, contigs=pool[qi]['contigs']))
@@ -138,8 +148,7 @@ def run(ctx):
                 labels = [dict(kind='path', v=cps(files[i][1])) for i in batch]
             elif channel == 'list':
                 lf = os.path.join(tmp, f'list{bi}.txt')
-                with open(lf, 'w') as f:
-                    f.write('\n'.join(files[i][0] for i in batch) + '\n')
+                cli.write_listfile(lf, [files[i][0] for i in batch], bi)          # every rendering of ListFile!Styles in turn
                 args += ['-l', lf, '--ldir', qdir]
                 labels = [dict(kind='path', v=cps(files[i][0])) for i in batch]
             elif bi % 8 == 6:
